@@ -8,8 +8,13 @@ the real plane-distance scores, exactly) and - computed INDEPENDENTLY by this mo
 ego-relative geometry of the case, in exact rationals - the critical flag of every object, the list
 of ground truths passing the manager filter, label compatibility under the policy, the pass/fail
 threshold of the ground truth's label and the `__eq__` class of every ground truth.  Compared: the
-four lists (by id, in order), the filtered `object_results` / `frame_ground_truth.objects`,
-`get_num_success()` / `get_num_fail()`.
+four lists (by id, as multisets: C03 is a counting statement and orders none of them), the filtered `object_results` /
+`frame_ground_truth.objects`, `get_num_success()` / `get_num_fail()`.
+
+Only public names of /repo are used: the manager is built with `dataset_paths=[]` (no dataset, no sample data of /repo), the
+matcher's output before the critical filter is obtained with `filter_objects(**manager.filtering_params)` +
+`get_object_results(...)` on the manager's public configuration; a new manager per case (no cache).  Set-up runs outside the
+`try` of `run_impl`: only `add_frame_result` can produce `out["err"]`.
 
 Composed model (a third of the generated cases and the whole corpus, `case["pipe"]`): the WHOLE frame is
 additionally handed to `PEval.Pipeline.detectFrame` (matcher -> critical filter + pass/fail -> per-label
@@ -113,12 +118,18 @@ RULE = (
 TRUSTED = [
     "decision-table translator (harness/dtable.py, harness/dt_match.py): symbolic stubs answer every query of the REAL "
     "is_label_correct / is_result_correct / get_status from the recorded valuation only; a leak marks the table untranslatable",
-    "matcher pairing and plane-distance scores are taken from the real code (C01/C02/C06 cover them); the model starts at the matcher's output "
-    "(op 'frame'); in the composed run (op 'pipeline') the model matches itself from the real center-distance table",
-    "composed run: matching values, heading weights (TPMetricsAph.get_value) and confidences are taken from the real objects exactly; "
-    "the lists reaching the matcher are obtained with the real filter_objects and the manager's own parameters",
+    "matcher pairing and plane-distance scores are taken from the real code (C01/C02/C06 cover them) through the public functions "
+    "filter_objects + get_object_results with the manager's own parameters (the calls add_frame_result documents); the model starts "
+    "at the matcher's output (op 'frame'); in the composed run (op 'pipeline') the model matches itself from the real center-distance "
+    "table - when it breaks an exact score tie the other way (C02 leaves the winner open) the composed comparison of that frame is "
+    "not made and the case is counted as skipped",
+    "composed run: confidences are taken from the real objects exactly; the lists reaching the matcher are obtained with the real "
+    "filter_objects and the manager's own parameters; matching values / heading weights / Map objects of the metrics are read only "
+    "when PIPE_COMPARE_METRICS is on (off: C04's observables are not C03's)",
     "critical / manager filter predicate re-implemented in exact rationals on the ego-relative coordinates of the case "
-    "(strict |x|<max_x, |y|<max_y or min<hypot<max per label; unknown-labelled estimates use the mean bound; FP-labelled objects always pass)",
+    "(strict |x|<max_x, |y|<max_y or min<hypot<max per label; unknown-labelled estimates use the mean bound; FP-labelled objects always "
+    "pass): 'the critical region' of C03 is read as the filter C10 STATES ('strictly inside the bounds configured for its label ... "
+    "false-positive-labelled objects always pass and unknown-labelled estimates are judged against the mean bounds')",
     "ego pose applied by the harness in floats for the MAP rendering (decisions closer than 1e-7 to a bound are skipped)",
     "pyquaternion Quaternion.__eq__ (np.allclose) as orientation equality inside DynamicObject.__eq__",
     "numeric types: int / numpy.int64 / numpy.int32 / numpy.float32 / numpy.float64 conversions of a float are value-preserving when "
@@ -165,7 +176,7 @@ STRICT_FP_REGION = False
 # =============================================================================== real-code builders
 
 _LAB = None
-_MGR_CACHE: Dict[str, Any] = {}
+STATS: Dict[str, int] = __import__("collections").Counter()
 _TMP = None
 
 
@@ -189,9 +200,23 @@ def _all_label_names() -> List[str]:
     return [inv.get(l, l.value) for l in AutowareLabel]
 
 
-def _manager(case):
-    """one real manager per distinct (task, frame, policy, manager filter); frame_results reset per case"""
+def _tmp_root() -> str:
+    """ONE scratch directory per process for `result_root_directory` (removed at exit)"""
     global _TMP
+    if _TMP is None:
+        import atexit
+        import shutil
+
+        _TMP = tempfile.mkdtemp(prefix="c03_")
+        atexit.register(shutil.rmtree, _TMP, True)
+    return _TMP
+
+
+def _manager(case):
+    """a NEW real manager for the case (task, frame, policy, manager filter).  No cache, no dataset: `dataset_paths=[]` makes
+    the (public) constructor load nothing - the frames are generated by the case - so a replayed case takes exactly the path
+    it took in the full run and nothing depends on /repo's bundled sample data.  Failures here are set-up failures of the
+    harness and propagate to the runner (infrastructure), they are not a verdict on C03."""
     import logging
     import warnings
 
@@ -199,13 +224,7 @@ def _manager(case):
     logging.disable(logging.CRITICAL)
     from perception_eval.config import PerceptionEvaluationConfig
     from perception_eval.manager import PerceptionEvaluationManager
-    import perception_eval.manager._evaluation_manager_base as mb
 
-    key = repr((case["task"], case["frame"], case["policy"], sorted(case["mgr"].items(), key=str)))  # incl. the type letters
-    if key in _MGR_CACHE:
-        return _MGR_CACHE[key]
-    if _TMP is None:
-        _TMP = tempfile.mkdtemp(prefix="c03_")
     mg = case["mgr"]
     n = len(mg["labels"])
     d = {
@@ -227,20 +246,15 @@ def _manager(case):
     if mg.get("radii") is not None:
         d["max_matchable_radii"] = _nt(mg["radii"], _tag(mg, "radii"))
     cfg = PerceptionEvaluationConfig(
-        dataset_paths=[str(core.REPO / "perception_eval" / "test" / "sample_data")], frame_id=case["frame"],
-        result_root_directory=_TMP, evaluation_config_dict=d,
+        dataset_paths=[], frame_id=case["frame"], result_root_directory=_tmp_root(), evaluation_config_dict=d,
     )
-    # FP validation: the bundled sample has ordinary annotations, which the loader rejects for this task;
-    # the dataset is replaced by generated frames anyway, so the manager is built on an empty load.
-    patched = case["task"] == "fp_validation" or len(_MGR_CACHE) >= 12
-    orig = mb.load_all_datasets
-    if patched:
-        mb.load_all_datasets = lambda **k: []
-    try:
-        m = PerceptionEvaluationManager(cfg)
-    finally:
-        mb.load_all_datasets = orig
-    _MGR_CACHE[key] = (cfg, m)
+    m = PerceptionEvaluationManager(cfg)
+    try:  # the manager's visualizer opens a matplotlib figure that is never drawn here: release it
+        import matplotlib.pyplot as plt
+
+        plt.close("all")
+    except Exception:  # noqa: BLE001 - housekeeping only
+        pass
     return cfg, m
 
 
@@ -374,115 +388,142 @@ def _map_out(mp) -> dict:
             "map": _fnum(mp.map), "maph": _fnum(mp.maph)}
 
 
-def _pipe_inputs(m, ests, gtf, pre, pre_frame) -> dict:
-    """what the composed model needs of one frame: the lists reaching the matcher, the real score table of the
-    manager's matcher (center distance, every cell) and, per pair the matcher made, the values later stages read"""
-    from perception_eval.evaluation.matching.object_matching import CenterDistanceMatching, MatchingMode
+def _matcher_output(m, ests, gtf):
+    """the matcher's output BEFORE the critical filter, through PUBLIC functions only: the manager's own filter on both lists
+    (`filter_objects(**manager.filtering_params)`) and `get_object_results` with the manager's public configuration - the
+    very calls `add_frame_result` is documented to make ("First of all, filter `estimated_objects` and `frame_ground_truth`.
+    Then generate a list of DynamicObjectResult"), deterministic, so the pairs are those of the evaluated frame.
+    Returns (object results, estimates reaching the matcher, ground truths reaching the matcher)."""
     from perception_eval.evaluation.matching.objects_filter import filter_objects
-    from perception_eval.evaluation.metrics.detection.tp_metrics import TPMetricsAph
+    from perception_eval.evaluation.result.object_result import get_object_results
 
-    in_e = filter_objects(objects=list(ests), is_gt=False, transforms=gtf.transforms, **m.filtering_params)
-    in_g = list(pre_frame.objects)
+    fp = m.filtering_params
+    in_e = filter_objects(objects=list(ests), is_gt=False, transforms=gtf.transforms, **fp)
+    in_g = filter_objects(objects=list(gtf.objects), is_gt=True, transforms=gtf.transforms, **fp)
+    pre = get_object_results(
+        evaluation_task=m.evaluation_task, estimated_objects=in_e, ground_truth_objects=in_g,
+        target_labels=m.target_labels, matching_label_policy=m.evaluator_config.label_params["matching_label_policy"],
+        matchable_thresholds=fp.get("max_matchable_radii"), transforms=gtf.transforms,
+        uuid_matching_first=fp.get("uuid_matching_first", False),
+    )
+    return list(pre), in_e, in_g
+
+
+def _pipe_inputs(m, gtf, pre, in_e, in_g) -> dict:
+    """what the composed model needs of one frame: the lists reaching the matcher, the real score table of the
+    manager's matcher (center distance, every cell) and, per pair the matcher made, the values later stages read.
+    While PIPE_COMPARE_METRICS is off nothing of the metrics objects (C04/C09 territory) is read: the per-mode matching values
+    and the heading weight are sent as null / 0 and the composed model is asked for no `Map`."""
+    from perception_eval.evaluation.matching.object_matching import CenterDistanceMatching, MatchingMode
+
     pos_e = {o.uuid: k for k, o in enumerate(in_e)}
     pos_g = {o.uuid: k for k, o in enumerate(in_g)}
     vals = [[core.q(float(CenterDistanceMatching(estimated_object=e, ground_truth_object=g, transforms=gtf.transforms).value))
              for g in in_g] for e in in_e]
     modes = {"center": MatchingMode.CENTERDISTANCE, "plane": MatchingMode.PLANEDISTANCE,
              "iou2d": MatchingMode.IOU2D, "iou3d": MatchingMode.IOU3D}
-    aph = TPMetricsAph()
+    aph = None
+    if PIPE_COMPARE_METRICS:
+        from perception_eval.evaluation.metrics.detection.tp_metrics import TPMetricsAph
+
+        aph = TPMetricsAph()
     pairs = []
     for r in pre:
         if r.ground_truth_object is None:
             continue
-        sc = {}
-        for name, mm in modes.items():
-            mt = r.get_matching(mm)
-            sc[name] = None if mt is None else core.qopt(mt.value)
+        sc = {name: None for name in modes}
+        if PIPE_COMPARE_METRICS:
+            for name, mm in modes.items():
+                mt = r.get_matching(mm)
+                sc[name] = None if mt is None else core.qopt(mt.value)
         pairs.append({"i": pos_e.get(r.estimated_object.uuid, -1), "j": pos_g.get(r.ground_truth_object.uuid, -1),
-                      "pf": core.qopt(r.plane_distance.value), "s": sc, "h": core.q(float(aph.get_value(r)))})
+                      "pf": core.qopt(r.plane_distance.value), "s": sc,
+                      "h": core.q(float(aph.get_value(r))) if aph is not None else "0"})
     radii = m.filtering_params.get("max_matchable_radii")
     return {"in_e": [_oid(o) for o in in_e], "vals": vals, "pairs": pairs,
             "radii": None if radii is None else [core.q(float(t)) for t in radii],
-            "targets": [l.value for l in m.target_labels]}
+            "targets": [l.value for l in m.target_labels], "maps": []}
 
 
 def run_impl(case) -> dict:
+    """Set-up (manager, frames, configurations, the harness' own helper calls incl. the public re-run of filter + matcher) is
+    OUTSIDE the `try`: a failure there propagates to the runner as an infrastructure error.  Only `add_frame_result` - the call
+    C03 observes - may produce `out["err"]`."""
+    import traceback
+
     from pyquaternion import Quaternion
     from perception_eval.common.dataset import FrameGroundTruth
     from perception_eval.common.schema import FrameID
     from perception_eval.common.transform import HomogeneousMatrix
     from perception_eval.evaluation.result.perception_frame_config import CriticalObjectFilterConfig, PerceptionPassFailConfig
+    from harness import builders as _B  # registry with a history (replaced ego pose), see builders.give_history
 
-    try:
-        cfg, m = _manager(case)
-        m.frame_results = []
-        frames = []
-        by_time: Dict[int, Any] = {}
-        for fr in case["frames"]:
-            if fr["time"] in by_time:  # the same dataset frame evaluated again (other estimates / critical filter)
-                frames.append(by_time[fr["time"]])
-                continue
-            e = fr["ego"]
-            trans, eyaw = _ego_pose(e)
-            ego2map = HomogeneousMatrix(trans, Quaternion(axis=[0, 0, 1], angle=eyaw), FrameID.BASE_LINK, FrameID.MAP)
-            gts = [_mk_object(g, True, fr, case["frame"], fr["time"]) for g in fr["gts"]]
-            frames.append(FrameGroundTruth(fr["time"], str(len(frames)), gts, transforms=[ego2map]))
-            from harness import builders as _B  # registry with a history (replaced ego pose), see builders.give_history
-
-            _B.maybe_history(frames[-1], ego2map, ("c03", fr["time"], len(gts), e["tx"]))
-            by_time[fr["time"]] = frames[-1]
-        m.ground_truth_frames = list(by_time.values())
-        outs = []
-        for k, fr in enumerate(case["frames"]):
-            gtf = m.get_ground_truth_now_frame(fr["time"])
-            if gtf is not frames[k]:
-                return {"err": "LookupMismatch"}
-            ests = [_mk_object(o, False, fr, case["frame"], fr["time"]) for o in fr["ests"]]
-            cr, pf = fr["crit"], fr["pf"]
-            kw = {}
-            ca, cb = _nt_list(cr["a"], _tag(cr, "a")), _nt_list(cr["b"], _tag(cr, "b"))
-            if cr["mode"] == "box":
-                kw["max_x_position_list"], kw["max_y_position_list"] = ca, cb
-            else:
-                kw["max_distance_list"], kw["min_distance_list"] = ca, cb
-            cmp_, cconf = cr.get("min_points"), cr.get("conf")
-            ccfg = CriticalObjectFilterConfig(
-                cfg, list(cr["labels"]),
-                min_point_numbers=None if cmp_ is None else _nt_list(cmp_, _tag(cr, "mp").replace("f", "i")),
-                confidence_threshold_list=None if cconf is None else _nt_list(cconf, _tag(cr, "conf")), **kw,
-            )
-            pft = pf.get("nt") if isinstance(pf.get("nt"), str) else None
-            if pf["labels"] is None:
-                names = _all_label_names()
-                thr = None if pf["thr"] is None else _nt_list([pf["thr"].get(nm, pf["thr"]["default"]) for nm in names], pft)
-                pcfg = PerceptionPassFailConfig(cfg, None, matching_threshold_list=thr)
-            else:
-                pcfg = PerceptionPassFailConfig(cfg, list(pf["labels"]),
-                                                matching_threshold_list=None if pf["thr"] is None else _nt_list(pf["thr"], pft))
-            # the matcher's output before the critical filter (same deterministic call add_frame_result makes)
-            pre, pre_frame = m._filter_objects(ests, gtf)
-            matcher = [
-                _pair(r) + [core.qopt(r.plane_distance.value), bool(r.is_label_correct)] for r in pre
-            ]
-            pipe = _pipe_inputs(m, ests, gtf, pre, pre_frame) if case.get("pipe") else None
+    cfg, m = _manager(case)
+    frames = []
+    by_time: Dict[int, Any] = {}
+    for fr in case["frames"]:
+        if fr["time"] in by_time:  # the same dataset frame evaluated again (other estimates / critical filter)
+            frames.append(by_time[fr["time"]])
+            continue
+        e = fr["ego"]
+        trans, eyaw = _ego_pose(e)
+        ego2map = HomogeneousMatrix(trans, Quaternion(axis=[0, 0, 1], angle=eyaw), FrameID.BASE_LINK, FrameID.MAP)
+        gts = [_mk_object(g, True, fr, case["frame"], fr["time"]) for g in fr["gts"]]
+        frames.append(FrameGroundTruth(fr["time"], str(len(frames)), gts, transforms=[ego2map]))
+        _B.maybe_history(frames[-1], ego2map, ("c03", fr["time"], len(gts), e["tx"]))
+        by_time[fr["time"]] = frames[-1]
+    outs = []
+    results = []
+    for k, fr in enumerate(case["frames"]):
+        gtf = frames[k]  # the dataset frame of this time stamp (the same object when a time stamp is evaluated again)
+        ests = [_mk_object(o, False, fr, case["frame"], fr["time"]) for o in fr["ests"]]
+        cr, pf = fr["crit"], fr["pf"]
+        kw = {}
+        ca, cb = _nt_list(cr["a"], _tag(cr, "a")), _nt_list(cr["b"], _tag(cr, "b"))
+        if cr["mode"] == "box":
+            kw["max_x_position_list"], kw["max_y_position_list"] = ca, cb
+        else:
+            kw["max_distance_list"], kw["min_distance_list"] = ca, cb
+        cmp_, cconf = cr.get("min_points"), cr.get("conf")
+        ccfg = CriticalObjectFilterConfig(
+            cfg, list(cr["labels"]),
+            min_point_numbers=None if cmp_ is None else _nt_list(cmp_, _tag(cr, "mp").replace("f", "i")),
+            confidence_threshold_list=None if cconf is None else _nt_list(cconf, _tag(cr, "conf")), **kw,
+        )
+        pft = pf.get("nt") if isinstance(pf.get("nt"), str) else None
+        if pf["labels"] is None:
+            names = _all_label_names()
+            thr = None if pf["thr"] is None else _nt_list([pf["thr"].get(nm, pf["thr"]["default"]) for nm in names], pft)
+            pcfg = PerceptionPassFailConfig(cfg, None, matching_threshold_list=thr)
+        else:
+            pcfg = PerceptionPassFailConfig(cfg, list(pf["labels"]),
+                                            matching_threshold_list=None if pf["thr"] is None else _nt_list(pf["thr"], pft))
+        # the matcher's output before the critical filter (public functions; same deterministic calls add_frame_result makes)
+        pre, in_e, in_g = _matcher_output(m, ests, gtf)
+        matcher = [
+            _pair(r) + [core.qopt(r.plane_distance.value), bool(r.is_label_correct)] for r in pre
+        ]
+        pipe = _pipe_inputs(m, gtf, pre, in_e, in_g) if case.get("pipe") else None
+        try:
             res = m.add_frame_result(fr["time"], gtf, ests, ccfg, pcfg)
-            o = _snapshot(res)
-            if pipe is not None:
+        except Exception as ex:  # the call under test raised
+            return {"err": core.err_kind(ex), "trace": traceback.format_exc()[-600:], "frame": k}
+        results.append(res)
+        o = _snapshot(res)
+        if pipe is not None:
+            if PIPE_COMPARE_METRICS:
                 pipe["maps"] = [_map_out(mp) for mp in res.metrics_score.maps]
-                o["pipe"] = pipe
-            o["matcher"] = matcher
-            o["mgr_gts"] = [_oid(g) for g in pre_frame.objects]
-            o["tp_scores"] = [core.qopt(r.plane_distance.value) for r in res.pass_fail_result.tp_object_results]
-            outs.append(o)
-        # histories: the frame results as the manager holds them after the whole sequence
-        final = [_snapshot(res) for res in m.frame_results]
-        for res, s in zip(m.frame_results, final):
-            s["tp_scores"] = [core.qopt(r.plane_distance.value) for r in res.pass_fail_result.tp_object_results]
-        return {"frames": outs, "final": final}
-    except Exception as e:  # noqa
-        import traceback
-
-        return {"err": type(e).__name__, "trace": traceback.format_exc()[-600:]}
+            o["pipe"] = pipe
+        o["matcher"] = matcher
+        o["mgr_gts"] = [_oid(g) for g in in_g]
+        o["tp_scores"] = [core.qopt(r.plane_distance.value) for r in res.pass_fail_result.tp_object_results]
+        outs.append(o)
+    # histories: the frame results as the manager holds them after the whole sequence
+    held = list(m.frame_results)
+    final = [_snapshot(res) for res in held]
+    for res, s in zip(held, final):
+        s["tp_scores"] = [core.qopt(r.plane_distance.value) for r in res.pass_fail_result.tp_object_results]
+    return {"frames": outs, "final": final}
 
 
 # =============================================================================== independent reference
@@ -766,8 +807,38 @@ def _cmp_ap(tag, a, r) -> Optional[str]:
     return None
 
 
+LIST_KEYS = ("results", "gts", "tp", "fp", "tn", "fn")
+
+
+def _canon_list(v):
+    """C03 is a COUNTING statement ("exactly one of TP or FP", "accounted for exactly once", results = TP + FP ...): it orders
+    none of the lists, so both sides are compared as multisets (sorted; a missing ground truth sorts first)"""
+    if isinstance(v, list):
+        return sorted(v, key=lambda x: tuple(-1 if t is None else t for t in x) if isinstance(x, (list, tuple)) else (x,))
+    return v
+
+
+def _lists_differ(tag: str, impl: dict, model: dict, what: str) -> Optional[str]:
+    for key in LIST_KEYS + ("ns", "nf"):
+        if _canon_list(impl[key]) != _canon_list(model[key]):
+            return f"{tag}: {key}: impl {impl[key]} != {what} {model[key]} (compared as multisets)"
+    return None
+
+
+def _table_has_tie(P: dict) -> bool:
+    """two cells of the matcher's real score table carry the same value: the winner of such a tie is left open by C02
+    ("a partner scoring at least as well"), so the composed model's own matching may legitimately differ from the real one"""
+    seen = set()
+    for row in P["vals"]:
+        for v in row:
+            if v in seen:
+                return True
+            seen.add(v)
+    return False
+
+
 def _cmp_pipe(k, o, r, dup) -> Optional[str]:
-    """end-to-end comparison of one frame with the composed model's response"""
+    """end-to-end comparison of one frame with the composed model's response; "tie" = not compared (see _table_has_tie)"""
     if r is None:
         return f"frame {k}: no response of the composed model"
     if "err" in r:
@@ -775,11 +846,13 @@ def _cmp_pipe(k, o, r, dup) -> Optional[str]:
     if not r.get("coherent"):
         return f"frame {k}: harness error, the two label encodings sent to the composed model disagree"
     want = [p[:2] for p in o["matcher"]]
-    if r["matched"] != want:
-        return f"frame {k}: matcher pairs impl {want} != composed model {r['matched']}"
-    for key in ("results", "gts", "tp", "fp", "tn", "fn", "ns", "nf"):
-        if o[key] != r[key]:
-            return f"frame {k} (composed): {key}: impl {o[key]} != model {r[key]}"
+    if _canon_list(r["matched"]) != _canon_list(want):
+        if _table_has_tie(o["pipe"]):
+            return "tie"
+        return f"frame {k}: matcher pairs impl {want} != composed model {r['matched']} (no two scores tie)"
+    d = _lists_differ(f"frame {k} (composed)", o, r, "model")
+    if d:
+        return d
     maps = o["pipe"]["maps"] if PIPE_COMPARE_METRICS else []
     if PIPE_COMPARE_METRICS and len(maps) != len(r["maps"]):
         return f"frame {k}: {len(maps)} Maps in metrics_score, composed model has {len(r['maps'])}"
@@ -817,7 +890,7 @@ def _views(case, out):
 
 def compare(case, out, resps) -> Optional[str]:
     if "err" in out:
-        return f"implementation raised {out['err']}: {out.get('trace', '')[-300:]}"
+        return f"add_frame_result raised {out['err']} (frame {out.get('frame')}): {str(out.get('trace', ''))[-300:]}"
     near = False
     for k, fr, o, snap, tag in _views(case, out):
         if tag == "length":
@@ -830,7 +903,7 @@ def compare(case, out, resps) -> Optional[str]:
         if tag == "at-time":
             # inputs of the model that were predicted independently must agree with what the pipeline did
             mg = [g["id"] for g in fr["gts"] if ff["mgr_g"][g["id"]]]
-            if mg != o["mgr_gts"]:
+            if sorted(mg) != sorted(o["mgr_gts"]):
                 return f"frame {k}: ground truths after the manager filter {o['mgr_gts']} != predicate on the geometry {mg}"
             me = [e["id"] for e in fr["ests"] if ff["mgr_e"][e["id"]]]
             got = [p[0] for p in o["matcher"]]
@@ -847,27 +920,34 @@ def compare(case, out, resps) -> Optional[str]:
                 return f"frame {k}: matcher output violates the well-formedness hypothesis (MatcherWF false)"
             if case.get("pipe"):
                 d = _cmp_pipe(k, o, resps[len(out["frames"]) + k], ff["dup"])
-                if d:
+                if d == "tie":
+                    near = True  # counted as skipped: the composed model's matcher broke an exact tie the other way
+                    STATS["compare:composed-model-not-compared(other-tie-winner)"] += 1
+                elif d:
                     return d
             # the model that COMPUTES the critical flags (positions, frame id, transforms, both filter call sites)
             rc = resps[_crit_base(case, out) + k]
             if "err" in rc:
                 return f"frame {k}: critical-frame model raised {rc['err']}"
-            for key in ("results", "gts", "tp", "fp", "tn", "fn", "ns", "nf"):
-                if snap[key] != rc[key]:
-                    return f"frame {k} (critframe): {key}: impl {snap[key]} != model with computed critical flags {rc[key]}"
+            d = _lists_differ(f"frame {k} (critframe)", snap, rc, "model with computed critical flags")
+            if d:
+                return d
             if not rc.get("sites_agree"):
                 return f"frame {k} (critframe): the two filter call sites disagree on a paired ground truth"
-        for key in ("results", "gts", "tp", "fp", "tn", "fn", "ns", "nf"):
-            if snap[key] != r[key]:
-                return f"frame {k} ({tag}): {key}: impl {snap[key]} != model {r[key]}"
+        d = _lists_differ(f"frame {k} ({tag})", snap, r, "model")
+        if d:
+            return d
     return "skip" if near else None
 
 
 def oracle(case, out) -> Optional[str]:
     """the property itself on the real output; never consults the model"""
     if "err" in out:
-        return f"evaluation raised {out['err']} on a valid frame: {out.get('trace', '')[-300:]}"
+        # "In every evaluated frame each object result ... is reported as exactly one of TP or FP": every generated frame is
+        # inside the quantifier, add_frame_result has to return its accounting
+        return f"add_frame_result raised {out['err']} on a valid frame (frame {out.get('frame')}): {str(out.get('trace', ''))[-300:]}"
+    if "frames" not in out or "final" not in out:
+        return None  # nothing observed
     for k, fr, m_, o, tag in _views(case, out):
         if tag == "length":
             return f"manager holds {len(out['final'])} frame results after {len(out['frames'])} add_frame_result calls"
@@ -1560,14 +1640,14 @@ def _generate(rng, tier) -> list:
         task = "fp_validation" if i % 3 == 2 else "detection"
         frame = "map" if i % 2 else "base_link"
         pool.append((task, frame, POLICIES[i % 3] if rng.random() < 0.5 else rng.choice(POLICIES), _gen_mgr(rng, frame)))
-    n = int(os.environ.get("C03_CASES", 0)) or (700 if tier == "quick" else 5000)
+    n = 700 if tier == "quick" else 5000  # budget by case count (no environment variable decides coverage)
     cases = [_gen_case(rng, pool, tier) for _ in range(n)]
     # twin ground truths (drawn after the base cases, which therefore stay what they were for a given seed)
-    n_twin = int(os.environ.get("C03_TWIN_CASES", 0)) or (220 if tier == "quick" else 1500)
+    n_twin = 220 if tier == "quick" else 1500
     cases += [_gen_twin_case(rng, pool, tier) for _ in range(n_twin)]
     # numeric type variants (drawn after everything else): scenes on an integer grid of their own frame (two thirds of them
     # in the MAP frame), type letters on a quarter of the cases generated above, and on 40% of the managers of the pool
-    n_typed = int(os.environ.get("C03_TYPED_CASES", 0)) or (240 if tier == "quick" else 1600)
+    n_typed = 240 if tier == "quick" else 1600
     typed = [_gen_typed_case(rng, pool, tier, "map" if k % 3 else "base_link") for k in range(n_typed)]
     for c in cases:
         if rng.random() < 0.25:
@@ -1631,7 +1711,7 @@ def _realise_status(val):
 
 def extra_evidence():
     key, info = _table_note()
-    return {"decision_tables": info, "decision_tables_status": key}
+    return {"decision_tables": info, "decision_tables_status": key, "oracle_counters": dict(STATS)}
 
 
 def table_witnesses():
